@@ -25,7 +25,7 @@ NOT_DECIDED = ["memory-mapped (float32 buffer) vs in-memory (float64) fits agree
                "directory listing order (covered only through sorted(glob) + sort_to_match)"]
 ASSUMPTIONS = ["one generic model / filter / aperture stands for every iteration", "np.argsort returns a permutation"]
 TRUSTED = ["python ast", "sedlint E4/E5"]
-MIN = {'PERM-8': 10, 'CFG-5': 2, 'PERM-3': 4, 'CFG-6': 1, 'AGREE-3': 6, 'AXIS': 6}
+MIN = {'EFF-6': 2, 'PERM-8': 10, 'CFG-5': 2, 'PERM-3': 4, 'CFG-6': 1, 'AGREE-3': 6, 'AXIS': 6}
 TECHNIQUE = 'static analysis: AST value numbering of both convolution drivers and of sort_to_match; writer/reader agreement tables; ordering rules on recorded call sequences'
 
 VOCAB = {'sflux', 'serr', 'cubeval', 'cubeunc', 'R', 'sname', 'cnames', 'fcw', 'sap', 'cap', 'names', 'req', 'flux', 'err', 'pnames'}
@@ -100,10 +100,61 @@ def check_sort_to_match(ctx):
     ctx.expect(okg, 'CFG-6', 'sort_to_match post-check', loc(st), 'raises when names[order] != requested names', 'no raising check that the re-ordered names match the request (guards: %s)' % [g[2] for g in guards], 'post-check')
 
 
+def check_shared_buffers(ctx):
+    """(EFF-6) The per-filter tables are separate records: an array handed to every ConvolvedFluxes(...) of a driver (the setters keep the reference) is shared by
+    all of them, so no method the driver calls on one table may rewrite that array's contents in place - the second table would be re-ordered by the first one's sort."""
+    from ..effects import Effects
+    from ..interp import setter_private_attr
+    repo = ctx.repo
+    ci = repo.cls('convolved_fluxes.convolved_fluxes', 'ConvolvedFluxes')
+    init = repo.find_member(ci, '__init__')[1]
+    eff = Effects(repo)
+    # constructor parameter -> private field it ends up in
+    field_of = {}
+    for t, v, st in stores(init.node):
+        if isinstance(t, ast.Attribute) and isinstance(t.value, ast.Name) and t.value.id == init.params[0] and isinstance(v, ast.Name) and v.id in init.params:
+            setter = repo.find_setter(ci, t.attr)
+            field_of.setdefault(v.id, set()).add((setter_private_attr(setter) if setter is not None else None) or t.attr)
+    for q in ('_convolve_model_dir_1', '_convolve_model_dir_2'):
+        fi = ctx.fn(repo.func('convolve.convolve', q))
+        shared = {}          # private field -> source text
+        nctor = 0
+        for n in walk_local(fi.node):
+            if not isinstance(n, (ast.ListComp, ast.For)):
+                continue
+            inner_names = {x.id for g in (n.generators if isinstance(n, ast.ListComp) else [n]) for x in ast.walk(g.target) if isinstance(x, ast.Name)}
+            for c in ast.walk(n):
+                if isinstance(c, ast.Call) and (chain(c.func) or '').split('.')[-1] == ci.name:
+                    nctor += 1
+                    bound = dict(zip(init.params[1:], c.args))
+                    bound.update({k.arg: k.value for k in c.keywords if k.arg})
+                    for pn, e in bound.items():
+                        if isinstance(e, (ast.Name, ast.Attribute)) and not ({x.id for x in ast.walk(e) if isinstance(x, ast.Name)} & inner_names):
+                            for f in field_of.get(pn, ()):
+                                shared[f] = up(e)
+        if not nctor:
+            ctx.undecided('EFF-6', '%s: per-filter tables' % q, loc(fi), 'construction of the per-filter ConvolvedFluxes not found')
+            continue
+        bad = []
+        called = set()
+        for c in calls(fi.node):
+            if isinstance(c.func, ast.Attribute):
+                m = repo.find_member(ci, c.func.attr)
+                if m is not None and m[0] == 'method' and c.func.attr not in called:
+                    called.add(c.func.attr)
+                    sm = eff.summary(m[1])
+                    for f, sites in sm.deep.get(m[1].params[0], {}).items():
+                        if f in shared or f == '*':
+                            bad.append('%s() rewrites %s in place (%s), and every table of this driver holds the same array %s' % (c.func.attr, f, sites[0][1], shared.get(f, '')))
+        ctx.expect(not bad, 'EFF-6', '%s: arrays shared by the per-filter tables are not rewritten in place' % q, loc(fi),
+                   'shared %s; methods called %s rewrite none of them in place' % (sorted(shared), sorted(called)), '; '.join(bad[:2]), 'shared-buffer')
+
+
 def run(ctx):
     repo = ctx.repo
     check_drivers(ctx)
     check_sort_to_match(ctx)
+    check_shared_buffers(ctx)
     fw, fr = repo.func('convolved_fluxes.convolved_fluxes', 'ConvolvedFluxes.write'), repo.func('convolved_fluxes.convolved_fluxes', 'ConvolvedFluxes.read')
     fitsmodel.check_pair(ctx, 'AGREE-3', fw, fr, {k: k for k in ('central_wavelength', 'apertures', 'model_names', 'flux', 'error')}, where, [('central_wavelength', 'FILTWAV')])
     sed_axes, _ = declared_axes(repo, repo.cls('sed.sed', 'SED'))
@@ -124,6 +175,7 @@ CF = 'sedfitter/convolved_fluxes/convolved_fluxes.py'
 MI = 'sedfitter/utils/misc.py'
 CU = 'sedfitter/sed/cube.py'
 MUST_FIRE = [
+    ('one name array shared by all filters and sorted in place', [(CV, "    fluxes = [ConvolvedFluxes(model_names=np.zeros(len(sed_files), dtype='U30'), apertures=apertures, initialize_arrays=True) for i in range(len(filters))]", "    model_names = np.zeros(len(sed_files), dtype='U30')\n    fluxes = [ConvolvedFluxes(model_names=model_names, apertures=apertures, initialize_arrays=True) for i in range(len(filters))]"), ('sedfitter/convolved_fluxes/convolved_fluxes.py', "        self.model_names = self.model_names[order]\n        self.flux = self.flux[order, :]\n        self.error = self.error[order, :]", "        self.model_names[:] = self.model_names[order]\n        self.flux[:] = self.flux[order, :]\n        self.error[:] = self.error[order, :]")]),
     ('D20 reverted: cube flux multiplied by the unit factor and converted again on assignment', [(CV, "np.sum(sed_val * response, axis=1).to(u.mJy)", "np.sum(sed_val * response, axis=1) * sed_cube.val.unit.to(u.mJy)")]),
     ('cube error multiplied by the unit factor and converted again', [(CV, "np.sqrt(np.sum((sed_unc * response) ** 2, axis=1)).to(u.mJy)", "np.sqrt(np.sum((sed_unc * response) ** 2, axis=1)) * sed_cube.unc.unit.to(u.mJy)")]),
     ('model_names[0] = s.name', [(CV, "fluxes[i].model_names[im] = s.name", "fluxes[i].model_names[0] = s.name")]),
@@ -145,6 +197,8 @@ MUST_FIRE = [
     ('central wavelength of the first filter', [(CV, "            fluxes[i].central_wavelength = f.central_wavelength\n            fluxes[i].apertures = apertures", "            fluxes[i].central_wavelength = filters[0].central_wavelength\n            fluxes[i].apertures = apertures")]),
 ]
 MUST_SILENT = [
+    ('one name array shared by all filters, sort rebinding', [(CV, "    fluxes = [ConvolvedFluxes(model_names=np.zeros(len(sed_files), dtype='U30'), apertures=apertures, initialize_arrays=True) for i in range(len(filters))]", "    model_names = np.zeros(len(sed_files), dtype='U30')\n    fluxes = [ConvolvedFluxes(model_names=model_names, apertures=apertures, initialize_arrays=True) for i in range(len(filters))]")]),
+    ('sort in place, arrays separate per filter', [('sedfitter/convolved_fluxes/convolved_fluxes.py', "        self.model_names = self.model_names[order]\n        self.flux = self.flux[order, :]\n        self.error = self.error[order, :]", "        self.model_names[:] = self.model_names[order]\n        self.flux[:] = self.flux[order, :]\n        self.error[:] = self.error[order, :]")]),
     ('cube flux converted by the assignment into the mJy array', [(CV, "np.sum(sed_val * response, axis=1).to(u.mJy)", "np.sum(sed_val * response, axis=1)")]),
     ('cube flux as bare values times the factor, unit re-attached', [(CV, "np.sum(sed_val * response, axis=1).to(u.mJy)", "np.sum(sed_val.value * response, axis=1) * sed_cube.val.unit.to(u.mJy) * u.mJy")]),
     ('order via a temporary', [(CF, "self.flux = self.flux[order, :]", "new_flux = self.flux[order, :]\n        self.flux = new_flux")]),
